@@ -18,7 +18,7 @@ func RegisterAll() {
 		SimComponents:  []string{"SimSched cooperative scheduler", "SimChip/SimPKI worlds", "per-operation random streams"},
 		RequiredProbes: []string{"lock_contended", "preempted_inside_call", "linearizable", "independent_instances_checked", "once_initialised_in_this_run"},
 		SampledOracles: map[string]bool{"data-race": true},
-		QuickBudget:    150, ThoroughBudget: 1200,
+		QuickBudget:    240, ThoroughBudget: 1200,
 	})
 	protoReal := []string{"gmrtd pace / bac / chipauth / activeauth, iso7816 (NfcSession, SecureMessaging), document constructors, password, mrz, cryptoutils"}
 	protoSim := []string{"SimChip protocol stack (own KDF, MACs, paddings, tokens, mapping, signatures)", "on-path adversary / impostor chip", "seeded terminal randomness via crypto/rand.Reader"}
